@@ -25,7 +25,9 @@ package encoding
 import (
 	"bytes"
 	"encoding/json"
+	"errors"
 	"fmt"
+	"io"
 	"strings"
 
 	"github.com/danos/encoding/rfc7951"
@@ -56,7 +58,13 @@ func decodeValue(val interface{}) (string, error) {
 		} else {
 			return "false", nil
 		}
-	case float64: // Non-empty Leaf containing number of any sort
+	case json.Number: // Non-empty Leaf containing number of any sort
+		// The digits as written: going through a float64 loses 64-bit
+		// values and turns 1.5 into 1.
+		return typeValue.String(), nil
+	case rfc7951.Number:
+		return typeValue.String(), nil
+	case float64:
 		return fmt.Sprintf("%d", int(typeValue)), nil
 	case nil: // Empty leaf
 		return "", nil
@@ -176,13 +184,25 @@ func unmarshalJSONInternal(
 ) (datanode.DataNode, error) {
 
 	jr := JSONReader{decodedName: sn.Name()}
+	// Numbers are kept as written (UseNumber).  Like Unmarshal, nothing but
+	// white space may follow the value.
 	if enc == RFC7951 {
-		if err := rfc7951.Unmarshal(json_input, &jr.decodedMsg); err != nil {
+		dec := rfc7951.NewDecoder(bytes.NewReader(json_input))
+		dec.UseNumber()
+		if err := dec.Decode(&jr.decodedMsg); err != nil {
 			return nil, err
 		}
+		if _, err := dec.Token(); err != io.EOF {
+			return nil, errors.New("invalid data after top-level value")
+		}
 	} else {
-		if err := json.Unmarshal(json_input, &jr.decodedMsg); err != nil {
+		dec := json.NewDecoder(bytes.NewReader(json_input))
+		dec.UseNumber()
+		if err := dec.Decode(&jr.decodedMsg); err != nil {
 			return nil, err
+		}
+		if _, err := dec.Token(); err != io.EOF {
+			return nil, errors.New("invalid data after top-level value")
 		}
 	}
 
